@@ -210,3 +210,13 @@ package pullapi
 //@   ensures [C04:204_only_after_the_store_extended] old(respStatus) == 0 && respStatus == 204 ==> storeMutations == old(storeMutations) + 1 && lastStoreErr == nil && lastStoreOp == "extend"
 //@   ensures [C04:conflict_is_409] old(respStatus) == 0 && storeMutations == old(storeMutations) + 1 && leaseConflict(lastStoreErr) ==> respStatus == 409
 //@   ensures [C04:always_answers] respStatus != 0
+
+//@ func (*Server).handleNack
+//@   requires s != nil && r != nil && w != nil
+//@   modifies *
+//@   calls NackSingle requires [C05:the_store_is_asked_for_the_delay_and_disposition_the_consumer_sent] arg3 == local(req).Dead && arg4 == local(req).Reason && (!local(req).Dead ==> respStatus == old(respStatus))
+//@   calls NackBatch requires [C05:the_store_is_asked_for_the_delay_and_disposition_the_consumer_sent] arg3 == local(req).Dead && arg4 == local(req).Reason && (!local(req).Dead ==> respStatus == old(respStatus))
+//@   ensures [C04:204_only_after_the_store_nacked_or_a_remembered_duplicate] old(respStatus) == 0 && respStatus == 204 ==> batchOps == old(batchOps) && ((storeMutations == old(storeMutations) + 1 && lastStoreErr == nil && (lastStoreOp == "nack" || lastStoreOp == "dead")) || storeMutations == old(storeMutations))
+//@   ensures [C04:single_conflict_is_409] old(respStatus) == 0 && !local(isBatch) && storeMutations == old(storeMutations) + 1 && leaseConflict(lastStoreErr) ==> respStatus == 409
+//@   ensures [C04:single_store_error_is_never_a_success] old(respStatus) == 0 && !local(isBatch) && storeMutations == old(storeMutations) + 1 && lastStoreErr != nil ==> respStatus >= 400
+//@   ensures [C04:always_answers] respStatus != 0
